@@ -277,6 +277,12 @@ func BoundVar(name string, s *Sort) *Term {
 	return TS.intern(&Term{Op: "bvar", Sort: s, Name: fmt.Sprintf("%s?%d", sanitize(name), TS.fresh)})
 }
 
+// CanonBound returns the same bound variable for the same (name, sort): quantified formulas built from
+// identical bodies are then identical terms (used for string / sequence equality).
+func CanonBound(name string, s *Sort) *Term {
+	return TS.intern(&Term{Op: "bvar", Sort: s, Name: name + "?c" + fmt.Sprint(s.Kind) + fmt.Sprint(s.Bits)})
+}
+
 func sanitize(s string) string {
 	var sb strings.Builder
 	for _, r := range s {
@@ -568,6 +574,13 @@ func Arith(op string, a, b *Term) *Term {
 		}
 		if zero(b) {
 			return a
+		}
+		// a + (x - a) == x ; (x - a) + a == x
+		if s.Kind == SInt && b.Op == "-" && len(b.Args) == 2 && b.Args[1] == a {
+			return b.Args[0]
+		}
+		if s.Kind == SInt && a.Op == "-" && len(a.Args) == 2 && a.Args[1] == b {
+			return a.Args[0]
 		}
 		// (x + c1) + c2
 		if s.Kind == SInt && isNum(b) && a.Op == "+" && len(a.Args) == 2 && isNum(a.Args[1]) {
@@ -869,6 +882,9 @@ func Forall(bound []*Term, body *Term, pats ...[]*Term) *Term {
 	}
 	if len(bound) == 0 {
 		return body
+	}
+	if len(pats) == 0 && len(bound) == 1 && bound[0].Sort.Kind == SInt {
+		bound, body, pats = normalizeIndexQuant(bound, body)
 	}
 	return TS.intern(&Term{Op: "forall", Sort: BoolSort, Args: []*Term{body}, Bound: bound, Pats: pats})
 }
@@ -1241,4 +1257,67 @@ func Script(asserts []*Term, getvals []*Term, logic string, extraDefs []string) 
 		fmt.Fprintf(&sb, "(get-value (%s))\n", strings.Join(vs, " "))
 	}
 	return sb.String()
+}
+
+// normalizeIndexQuant rewrites  forall k. phi(select(A, off + k))  into  forall j. phi(select(A, j))[k := j - off]
+// and attaches the bare selects as patterns, so that E-matching does not have to match through arithmetic.
+func normalizeIndexQuant(bound []*Term, body *Term) ([]*Term, *Term, [][]*Term) {
+	k := bound[0]
+	var off *Term
+	seen := map[int]bool{}
+	var find func(t *Term)
+	find = func(t *Term) {
+		if off != nil || seen[t.id] || !t.open {
+			return
+		}
+		seen[t.id] = true
+		if t.Op == "select" {
+			idx := t.Args[1]
+			if idx.Op == "+" && len(idx.Args) == 2 {
+				if idx.Args[1] == k && !idx.Args[0].open {
+					off = idx.Args[0]
+					return
+				}
+				if idx.Args[0] == k && !idx.Args[1].open {
+					off = idx.Args[1]
+					return
+				}
+			}
+		}
+		if t.Op == "forall" || t.Op == "exists" {
+			return
+		}
+		for _, a := range t.Args {
+			find(a)
+		}
+	}
+	find(body)
+	nb := k
+	nbody := body
+	if off != nil {
+		nb = TS.intern(&Term{Op: "bvar", Sort: k.Sort, Name: k.Name + "j"})
+		nbody = Subst(body, map[*Term]*Term{k: Arith("-", nb, off)})
+	}
+	// patterns: selects whose index is exactly the bound variable
+	var pats [][]*Term
+	pseen := map[int]bool{}
+	var collect func(t *Term)
+	collect = func(t *Term) {
+		if pseen[t.id] || !t.open {
+			return
+		}
+		pseen[t.id] = true
+		if t.Op == "forall" || t.Op == "exists" {
+			return
+		}
+		if t.Op == "select" && t.Args[1] == nb && !t.Args[0].open {
+			pats = append(pats, []*Term{t})
+		}
+		for _, a := range t.Args {
+			collect(a)
+		}
+	}
+	collect(nbody)
+	// only usable when every occurrence of the bound variable is coverable by some pattern (always true: each pattern mentions it)
+	return []*Term{nb}, nbody, pats
 }
